@@ -66,6 +66,13 @@ pub enum Strategy {
     /// by `shared_seed` alone: two generators with different labels and the same window agree
     /// exactly there and are independent everywhere else
     SharedWindow { lo: u64, hi: u64, shared_seed: u64 },
+    /// the first `groups` sampler iterations get these nine base-sampler bytes and this sign
+    /// byte, and zero Bernoulli bytes (accept): the first `groups` samples are all the same
+    /// chosen value; everything after is honest
+    PlantSamples { groups: u64, base: [u8; 9], sign: u8 },
+    /// like PlantSamples, but at the start of every `every`-th key-generation candidate (the
+    /// generator polls the crate's candidate counter hook to see where candidates begin)
+    PlantPerCandidate { groups: u64, base: [u8; 9], sign: u8, every: u64 },
 }
 
 impl Strategy {
@@ -79,6 +86,8 @@ impl Strategy {
             Strategy::CounterPrefix { prefix } => format!("counter-{}", prefix),
             Strategy::ForcedSalt { .. } => "forced-salt".into(),
             Strategy::SharedWindow { lo, hi, .. } => format!("shared-window-{}-{}", lo, hi),
+            Strategy::PlantSamples { groups, .. } => format!("plant-{}-samples", groups),
+            Strategy::PlantPerCandidate { groups, every, .. } => format!("plant-{}-samples-every-{}-candidates", groups, every),
         }
     }
 }
@@ -98,6 +107,10 @@ pub struct ScriptedRng {
     aux: ChaCha20Rng,
     shared: Option<ChaCha20Rng>,
     outpos: u64,
+    /// key-generation candidates seen so far (PlantPerCandidate) and the draw count at which
+    /// the current one began
+    pub cand: u64,
+    cand_start: u64,
 }
 
 impl ScriptedRng {
@@ -107,6 +120,8 @@ impl ScriptedRng {
             aux: rng_for(seed, &format!("{}-aux", label)),
             shared: if let Strategy::SharedWindow { shared_seed, .. } = &strategy { Some(rng_for(*shared_seed, "shared-window")) } else { None },
             outpos: 0,
+            cand: 0,
+            cand_start: 0,
             strategy,
             pos: 0,
             total_u32: 0,
@@ -127,6 +142,8 @@ impl ScriptedRng {
             Strategy::ConstPrefix { prefix, .. } => self.total_u32 < *prefix,
             Strategy::CounterPrefix { prefix } => self.total_u32 < *prefix,
             Strategy::ForcedSalt { .. } | Strategy::SharedWindow { .. } => false,
+            Strategy::PlantSamples { groups, .. } => group < *groups,
+            Strategy::PlantPerCandidate { groups, every, .. } => self.cand % *every == 1 % *every && (self.total_u32 - self.cand_start) / 17 < *groups,
         }
     }
     /// the shared stream advances with every output position; inside the window its byte wins
@@ -142,6 +159,13 @@ impl ScriptedRng {
         own
     }
     fn draw_byte(&mut self) -> u8 {
+        if let Strategy::PlantPerCandidate { .. } = self.strategy {
+            let c = falcon_rust::verif_hooks::take_keygen_candidates();
+            if c > 0 {
+                self.cand += c as u64;
+                self.cand_start = self.total_u32;
+            }
+        }
         let slot = self.total_u32 % 17; // 0..8 base, 9 sign, 10..16 bernoulli
         let active = self.hostile_active();
         if !active {
@@ -183,6 +207,15 @@ impl ScriptedRng {
                 Strategy::ConstPrefix { byte, .. } => byte,
                 Strategy::CounterPrefix { .. } => self.total_u32 as u8,
                 Strategy::Honest | Strategy::ForcedSalt { .. } | Strategy::SharedWindow { .. } => honest as u8,
+                Strategy::PlantSamples { base, sign, .. } | Strategy::PlantPerCandidate { base, sign, .. } => {
+                    if slot < 9 {
+                        base[slot as usize]
+                    } else if slot == 9 {
+                        sign
+                    } else {
+                        0
+                    }
+                }
             }
         };
         let out = self.window_byte(out);
